@@ -12,7 +12,8 @@ PROPS = {
     'C01': {
         'lean_modules': ['C01'],
         'required_theorems': ['C01_no_false_negative', 'C01_empty_absent', 'C01_probe_in_range', 'C01_no_false_negative_concrete'],
-        'suites': ['bloom'],
+        'suites': ['bloom', 'conc'],
+        'race_suites': ['conc'],
         'level': 'proof',
         'explanation': 'Theorems C01_* (Lean 4) over the bit-array model for an arbitrary in-range probe function and every history; '
                        'suite `bloom` checks on every run that each observed Insert/Lookup of both backends is the model transition '
@@ -27,7 +28,8 @@ PROPS = {
         'lean_modules': ['C02'],
         'required_theorems': ['C02_no_false_negative', 'C02_insert_ok_stored', 'C02_insert_preserves_lookup', 'C02_alt_involutive_pow2',
                               'C02_alt_not_involutive_npow2', 'C02_no_kick_any_n_partial', 'C02_npow2_kick_loses_element'],
-        'suites': ['cuckoo'],
+        'suites': ['cuckoo', 'conc'],
+        'race_suites': ['conc'],
         'level': 'proof',
         'explanation': 'Key-bag refinement proved in Lean for both bucket kinds (in-memory slot array, Redis list): under an involutive alternate-bucket map '
                        '(proved for power-of-two bucket counts) a successful insert adds one copy to the element\'s bucket pair, relocations keep every fingerprint inside its pair, '
@@ -40,7 +42,8 @@ PROPS = {
     'C03': {
         'lean_modules': ['C03'],
         'required_theorems': ['C03_lower', 'C03_upper', 'C03_exact_single', 'C03_empty_zero', 'C03_concrete'],
-        'suites': ['cms'],
+        'suites': ['cms', 'conc', 'redisconc'],
+        'race_suites': ['conc'],
         'level': 'proof',
         'explanation': 'Lean theorems over the matrix model for an arbitrary in-range position function and every update history (cell invariant: each cell is the sum of the counts hashed to it); '
                        'suite `cms` checks every observed Update/UpdateOnce/UpdateString/Count of both backends against the model (abstract mode) and getPositions against its transcription.',
@@ -51,7 +54,8 @@ PROPS = {
         'lean_modules': ['C04', 'C04E2E'],
         'required_theorems': ['C04_end_to_end_mem', 'C04_end_to_end_redis', 'C04_size', 'C04_nodup', 'C04_count_bounds', 'C04_unreported_light', 'C04_exact_without_collisions',
                               'C04_values_sorted', 'C04_mem_refines_spec', 'C04_redis_refines_spec'],
-        'suites': ['topk'],
+        'suites': ['topk', 'conc', 'redisconc'],
+        'race_suites': ['conc'],
         'level': 'proof',
         'explanation': 'Lean: nondeterministic Top-K specification (any tie resolution) with size/no-duplicate/count-bound/unreported-light/exactness theorems for every history whose estimates satisfy the Count-Min bounds; '
                        'container/heap (up/down/Push/Pop/Remove) and the sorted-set variant are proved to refine it. Suite `topk` replays every observed Insert (sketch update, estimate, heap transition) and Values of both backends through the model.',
@@ -61,7 +65,7 @@ PROPS = {
     'C05': {
         'lean_modules': ['C05'],
         'required_theorems': ['C05_update_ok_iff', 'C05_registers_confined', 'C05_index_range'],
-        'suites': ['hllacc', 'hll'],
+        'suites': ['hllacc', 'hll', 'redisconc'],
         'level': 'proof',
         'explanation': 'The accuracy clause is FALSE of the pinned code (finding D4: the register index is the rank and the stored value is hash bits); what is proved is the exact characterisation of what the code computes '
                        '(which registers can ever be written, when an update fails) and the refutation; suites `hllacc`/`hll` tie registers and the float estimator to the model on every run, so any change of the estimator or the register rule is detected as a correspondence break; '
@@ -73,7 +77,8 @@ PROPS = {
         'lean_modules': ['C06'],
         'required_theorems': ['C06_perm', 'C06_dup', 'C06_depends_only_on_set', 'C06_merge_union_fresh', 'C06_merge_comm', 'C06_merge_idem',
                               'C06_merge_then_update', 'C06_merge_mismatch'],
-        'suites': ['hll'],
+        'suites': ['hll', 'conc', 'redisconc'],
+        'race_suites': ['conc'],
         'level': 'proof',
         'explanation': 'Lean theorems for an arbitrary (register, value) function: updates commute and are idempotent, so registers (hence Count and Export) depend only on the set of elements; merge = pointwise max = union, commutative, idempotent; mismatch is an error. '
                        'Suite `hll` replays every observed Update/Count/Merge of both backends through the model.',
@@ -92,7 +97,7 @@ PROPS = {
     'C12': {
         'lean_modules': ['C12'],
         'required_theorems': ['C12_merge_union', 'C12_merge_comm', 'C12_merge_assoc', 'C12_merge_then_update', 'C12_counts_after_merge', 'C12_mismatch'],
-        'suites': ['cms'],
+        'suites': ['cms', 'redisconc'],
         'level': 'proof',
         'explanation': 'Lean: merge of two sketches of equal dimensions is the sketch of the concatenated history (all counts equal), commutative/associative, later updates behave as on the single sketch, mismatch is an error. '
                        'Suite `cms` replays observed merges of both backends through the model and checks argument-unchanged, merge orders, updates after merge, mismatches.',
@@ -101,7 +106,8 @@ PROPS = {
     'C13': {
         'lean_modules': ['C13'],
         'required_theorems': ['C13_wf_preserved', 'C13_length_exact', 'C13_capacity', 'C13_remove_present', 'C13_remove_absent', 'C13_empty_after_all_removed'],
-        'suites': ['cuckoo'],
+        'suites': ['cuckoo', 'conc'],
+        'race_suites': ['conc'],
         'level': 'proof',
         'explanation': 'Lean (any bucket count, both bucket kinds, every eviction choice): well-formedness is preserved by every operation, Length = stored entries = successful inserts - successful removes, no bucket exceeds its capacity, '
                        'remove of a present element removes exactly one copy, remove of an absent one changes nothing, an emptied filter answers false everywhere. Suite `cuckoo` as for C02.',
@@ -119,7 +125,7 @@ PROPS = {
     'C18': {
         'lean_modules': ['C18', 'C11', 'C18Table'],
         'required_theorems': ['C18_truncated_bloom', 'C18_truncated_cms', 'C18_truncated_hll', 'C18_truncated_cuckoo', 'C18_truncated_topk', 'C18_errors_propagated', 'C18_decoder_table_covers'],
-        'suites': ['persist'],
+        'suites': ['persist', 'jsonprefix'],
         'level': 'proof',
         'explanation': 'Lean: a decoder written in the read-n-bytes monad that consumes a whole image rejects every strict prefix (generic theorem), instantiated for the five formats via the C11 round trip. '
                        'Suite `persist` feeds EVERY strict prefix of each sampled binary image and JSON document to ReadFrom/Import (must error, not panic, not succeed) and compares the decoders on truncated input with the model; '
@@ -131,7 +137,7 @@ PROPS = {
         'lean_modules': ['C08', 'C04', 'C08Cuckoo', 'C08TopK', 'C08Bucket', 'C08ZSet'],
         'required_theorems': ['C08_cuckoo_until_kick', 'C08_topk_no_tie_equal', 'C08_topk_history', 'C08_bucket_add', 'C08_bucket_remove', 'C08_bucket_lookup', 'C08_topk_insert_cmds', 'C08_cms_update', 'C08_cms_count', 'C08_cms_merge', 'C08_hll_update', 'C08_hll_merge', 'C08_bloom_insert', 'C08_bloom_lookup',
                               'C04_mem_refines_spec', 'C04_redis_refines_spec'],
-        'suites': ['lockstep', 'redistie', 'cms', 'hll', 'bloom', 'topk'],
+        'suites': ['lockstep', 'redistie', 'cms', 'hll', 'bloom', 'topk', 'redisconc'],
         'level': 'proof',
         'explanation': 'Lean: the Redis-level models (store, commands, the Lua scripts transcribed) of Count-Min, HyperLogLog and Bloom are proved to simulate the in-memory models step for step (same answers, same abstract state); '
                        'both Top-K variants refine one specification (equal up to ties at the minimum); for cuckoo both bucket kinds satisfy the same bucket laws (C02/C13). '
@@ -202,13 +208,15 @@ PROPS = {
     },
 
     'C15': {
-        'lean_modules': ['C15'],
-        'required_theorems': ['C15_bloom_size', 'C15_cms_cols', 'C15_cms_rows', 'C15_cubic_term_exact', 'C15_probes_scheme', 'C15_cuckoo_fpl_counterexample'],
+        'lean_modules': ['C15', 'C15Prob'],
+        'required_theorems': ['C15_bloom_size', 'C15_cms_cols', 'C15_cms_rows', 'C15_cubic_term_exact', 'C15_probes_scheme', 'C15_cuckoo_fpl_counterexample',
+                              'C15_cms_eps_delta_ideal', 'C15_cms_eps_delta_ideal_count'],
         'suites': ['sizing'],
         'level': 'other',
         'explanation': 'PARTIAL by nature: the claim is statistical and about concrete hash functions. Proved in Lean (Mathlib reals): the sizing formulas give m >= n ln(1/p)/ln^2 2, e/cols <= eps, e^-rows <= delta; the probe sequences are (enhanced) double hashing with an exact cubic term; the cuckoo sizing is refuted (fingerprint length in bytes used as decimal digits, finding D22). '
+                       'Props/C15Prob: the Count-Min (eps, delta) clause is PROVED for ideal hashing - for the sketch the constructor builds (rows = ceil(ln 1/delta), cols = ceil(e/eps)), any history and any element, the fraction of the hash family (every row drawn uniformly and independently from all functions E -> Fin cols) for which Count exceeds the true count by more than eps*N is at most delta (C15_cms_eps_delta_ideal, by counting: cell invariant of C03, Markov by double counting, product set, (1/e)^rows <= delta). The concrete double-hashing scheme of the code is not covered by it. '
                        'Suite `sizing`: every from-error-budget constructor\'s dimensions against the transcribed formulas (exact mode, IEEE double), and a statistical test of observed false-positive / over-estimate frequencies at design load against the budget (slack factor 1.5 + 6 sigma, so an unchanged tree does not alarm) - that part is testing, not proof.',
-        'assumptions': ['uniform-hashing analyses of Bloom filters and Count-Min sketches (cited, not proved)', 'float rounding of the sizing formulas (checked on a grid with a 1e-12 relative tolerance for libm differences)'],
+        'assumptions': ['uniform-hashing analysis of Bloom filters (cited, not proved); the Count-Min analysis is proved for ideal hashing only, metro hash + double hashing is measured', 'float rounding of the sizing formulas (checked on a grid with a 1e-12 relative tolerance for libm differences)'],
         'technique': 'Lean 4 theorems about the sizing arithmetic + exact-mode correspondence of constructor dimensions + statistical test (one-sided bound) of the observed error frequencies',
     },
     'C16': {
